@@ -57,10 +57,13 @@ fn gen_uring(g: &mut Rng, _tier: Tier) -> J {
             "start_us" => g.below(20_000),
         });
     }
+    let loops = g.range(1, 2);
+    let mut sim = gen_sim(g, SimOpts { max_points: 4_000_000, max_sim_ms: 30_000, ..SimOpts::default() });
+    super::ensure_cpus(&mut sim, loops);
     obj! {
-        "loops" => g.range(1, 2),
+        "loops" => loops,
         "calls" => J::Arr(calls),
-        "sim" => gen_sim(g, SimOpts { max_points: 4_000_000, max_sim_ms: 30_000, ..SimOpts::default() }),
+        "sim" => sim,
     }
 }
 
